@@ -133,6 +133,9 @@ func (h *Headers) Deserialize(frh *FrameHeader) error {
 
 	h.endStream = flags.Has(FlagEndStream)
 	h.endHeaders = flags.Has(FlagEndHeaders)
+	// Remembered so that writing the frame out again pads it again: the
+	// PADDED flag stays on the frame header either way.
+	h.hasPadding = flags.Has(FlagPadded)
 	h.rawHeaders = append(h.rawHeaders, payload...)
 
 	return nil
